@@ -7,6 +7,9 @@ VERIF = os.path.dirname(os.path.dirname(os.path.abspath(__file__)))
 
 # id -> (technique, level text, level note, design ref)
 CHECKS = {
+    "C06": ("differential oracle: swapped run vs uninterrupted run of the same runtime, all split points 0..8(24) + random, 1-4 consecutive swaps, VM payload and the CLI's WASM preparation path",
+            "For generated stateful programs every split point in a dense initial range plus random later ones is exercised on both runtimes: n samples, 1-4 hot swaps to a fresh compilation of the same source through the same preparation code the CLI uses, m more samples; the stream must equal the uninterrupted run bit for bit.",
+            "dsp inputs are a function of the sample index; programs keep signal state in self/mem/delay only (as the property states).", "DESIGN.md §3 C06"),
     "C05": ("online trace checker over hooked state operations (VM instructions + WASM host functions) against the cells of the published skeleton; cursor and VM/WASM state-word comparison after every sample",
             "Every Get/Set/Mem/Delay state operation of both runtimes is recorded by cfg-guarded hooks and matched against the published layout (address, size, kind), walked independently by the harness and cross-checked against path_to_address; the cursor must return to 0 after each dsp call and both runtimes must hold identical words after every sample. Workload: generated stateful call trees and all shipped sources.",
             "Trusts the hooks (add-only, reviewed) and the harness' prefix-sum walk; state in if arms is a known finding kept out of general exploration; WASM closure storages grow lazily and are not judged.", "DESIGN.md §3 C05"),
